@@ -318,3 +318,35 @@ func (o *Once) Do(f func()) {
 	}()
 	f()
 }
+
+
+// Pool mirrors sync.Pool with deterministic behaviour: a LIFO free list that never drops items on its own (the real pool
+// may; code must work either way, and keeping everything makes reuse - the interesting case - certain).
+type Pool struct {
+	New   func() any
+	mu    sync.Mutex
+	items []any
+}
+
+func (p *Pool) Get() any {
+	p.mu.Lock()
+	defer p.mu.Unlock()
+	if n := len(p.items); n > 0 {
+		x := p.items[n-1]
+		p.items = p.items[:n-1]
+		return x
+	}
+	if p.New != nil {
+		return p.New()
+	}
+	return nil
+}
+
+func (p *Pool) Put(x any) {
+	if x == nil {
+		return
+	}
+	p.mu.Lock()
+	p.items = append(p.items, x)
+	p.mu.Unlock()
+}
